@@ -375,6 +375,7 @@ pub mod multi_writer {
     //@   ens[MultiWriter::flush.post.other] r is Ok && self.o_other_writer is Some ==> ow_flushed(self.other_id()) && ow_flush_result(self.other_id()) is Ok
     //@   ens[MultiWriter::flush.post.duplicates] r is Ok ==> (!(self.dup_err_spec() is None) ==> super::stderr_flushed()) && (!(self.dup_out_spec() is None) ==> super::stdout_flushed())
     //@ fn src/primary_writer/multi_writer.rs impl LogWriter for MultiWriter / fn shutdown
+    //@   fallback src/writers/log_writer.rs trait LogWriter / fn shutdown
     //@   props C04
     //@   ens[MultiWriter::shutdown.post.file] self.o_file_writer is Some ==> fw_shut()
     //@   ens[MultiWriter::shutdown.post.other] self.o_other_writer is Some ==> ow_shut(self.other_id())
